@@ -31,9 +31,9 @@ pub mod types;
 // crate now:
 pub mod invoice_utils;
 
-#[cfg(fuzzing)]
+#[cfg(any(fuzzing, ldk_verif))]
 pub mod peer_channel_encryptor;
-#[cfg(not(fuzzing))]
+#[cfg(not(any(fuzzing, ldk_verif)))]
 pub(crate) mod peer_channel_encryptor;
 
 #[cfg(fuzzing)]
